@@ -284,6 +284,20 @@ func RunMsgCase(cs map[string]any, id int, seed int64) Result {
 		HeaderOptions: validate.HeaderOptions{MinimumQeSvn: 1, MinimumPceSvn: 1, QeVendorID: gen.RandBytes(rng, 16)}}
 	run("validate.TdxQuote", false, func() error { return validate.TdxQuote(m, vopts) })
 	run("rtmr.GetRtmrsFromTdQuote", true, func() error { _, err := rtmr.GetRtmrsFromTdQuote(m); return err })
+	// the event-log entry point: verification gate first, so an arbitrary message must come back as an error
+	run("rtmr.ParseCcelWithTdQuote", false, func() error {
+		sample := loadCcel()
+		po := rtmr.TdxDefaultOpts(sample.nonce)
+		po.Verification = VerifyOpts(conc, map[string]any{"gc": false, "cr": false, "now": "set"})
+		_, err := rtmr.ParseCcelWithTdQuote(sample.log, sample.table, m, &po)
+		return err
+	})
+	run("rtmr.ParseCcelWithTdQuote(garbage log)", false, func() error {
+		po := rtmr.TdxDefaultOpts(nil)
+		po.Verification = VerifyOpts(conc, map[string]any{"gc": false, "cr": false, "now": "set"})
+		_, err := rtmr.ParseCcelWithTdQuote(gen.RandBytes(rng, 300), gen.RandBytes(rng, 56), m, &po)
+		return err
+	})
 	if crashed == nil {
 		crashed = []string{}
 	}
